@@ -1153,6 +1153,25 @@ def _zip_source(fi, name, at):
     return None
 
 
+def _bound_args(call, pnames):
+    """The argument expressions of `call` in the order of the callee's
+    leading parameters `pnames` (positional arguments and keywords bind the
+    same parameters), or None when the binding cannot be read off the call
+    (star arguments, unknown / duplicate keywords, a parameter left out)."""
+    if any(isinstance(a, ast.Starred) for a in call.args) or any(k.arg is None for k in call.keywords):
+        return None
+    if len(call.args) > len(pnames):
+        return None
+    got = dict(zip(pnames, call.args))
+    for k in call.keywords:
+        if k.arg not in pnames or k.arg in got:
+            return None
+        got[k.arg] = k.value
+    if len(got) != len(pnames):
+        return None
+    return [got[p] for p in pnames]
+
+
 def _itemsize_owner(fi, e, at):
     for f in ('_A.dtype.itemsize', '_A.itemsize'):
         b = match(f, e)
@@ -1282,7 +1301,8 @@ def d6_joint_counts(ck, table_verdict=None):
                 cast_sides.add(src)
                 ck.ok(rule + '.uptype', mod, s, u(s), 'target type decided by the element-type truth table (%s.ids-preserved)' % (rule + '.uptype'))
                 continue
-            ck.missing(rule + '.uptype', 'target dtype of the cast not recognised: %s' % u(s))
+            if table_verdict != 'bad':            # 'bad': the truth table evaluated this target type and reported the cast
+                ck.missing(rule + '.uptype', 'target dtype of the cast not recognised: %s' % u(s))
             unrecognised = True
             continue
         if _origin_of(fi, b['_O'], s) == src:
@@ -1338,18 +1358,20 @@ def d6_joint_counts(ck, table_verdict=None):
         return
     XS, YS, MX, MY = params(fm)[:4]
     jcalls = [c for c in calls_in(fm) if (call_name(c) or '').split('.')[-1] == 'joint_counts']
-    if len(jcalls) != 1 or len(jcalls[0].args) != 4 or jcalls[0].keywords:
+    # positional arguments and keywords bind the same parameters of joint_counts
+    jargs = _bound_args(jcalls[0], params(fn)[:4]) if len(jcalls) == 1 else None
+    if jargs is None:
         ck.missing(rule_p, 'one call joint_counts(X, Y, <states>, <states>) in mi_matrix')
         return
     jc_call = jcalls[0]
     jst = fim.stmt(jc_call)
-    srcs = [_zip_source(fim, a.id, jst) if isinstance(a, ast.Name) else None for a in jc_call.args[:2]]
+    srcs = [_zip_source(fim, a.id, jst) if isinstance(a, ast.Name) else None for a in jargs[:2]]
     if any(x is None for x in srcs):
         ck.missing(rule_p, 'trajectory arguments of %s are not loop variables over zip(%s, %s)' % (u(jc_call), XS, YS))
     else:
         ck.check([u(x) for x in srcs] == [XS, YS], rule_p, mod, jc_call, G, '%s with (X, Y) from (%s)' % (u(jc_call), ', '.join(u(x) for x in srcs)),
                  'each trajectory pair is counted as (first, second)', 'joint_counts must receive the trajectory of %s first and of %s second' % (XS, YS))
-    for a, p in zip(jc_call.args[2:], (MX, MY)):
+    for a, p in zip(jargs[2:], (MX, MY)):
         vv = classify(fim.expand(a, stop=(MX, MY)), ['%s.max()' % p, 'int(%s.max())' % p], scope={MX, MY})
         ck.decide(vv, rule_p, mod, jc_call, G, '%s: %s' % (u(jc_call), u(a)), 'every trajectory counted with the same (max) state count of its side',
                   'the state-count argument must be np.max(%s): all trajectories must be counted into tables of one shape, with the '
@@ -2261,8 +2283,27 @@ class _DtypeRun:
             if 'dtype' in kws or len(args) > 1:
                 return self.cast(args[0], self.as_dtype(kws.get('dtype', args[1] if len(args) > 1 else None)), e)
             return args[0]
-        if cn in ('min', 'max') and args and all(type(a) is int for a in args):
+        if cn in ('min', 'max') and args and not kws and all(type(a) is int for a in args):
             return min(args) if cn == 'min' else max(args)
+        if cn in ('min', 'max') and set(kws) == {'key'} and args and not any(isinstance(a, ast.Starred) for a in e.args):
+            # selection by a key: the FIRST operand whose key is extreme (Python's rule for ties), when the key
+            # function is a one-parameter lambda the table can evaluate on every operand (`d.itemsize`, ...)
+            cands = list(args[0]) if len(args) == 1 and isinstance(args[0], tuple) else args if len(args) > 1 else None
+            lam = kwarg(e, 'key')
+            if cands and isinstance(lam, ast.Lambda) and len(lam.args.args) == 1 and not (
+                    lam.args.posonlyargs or lam.args.kwonlyargs or lam.args.vararg or lam.args.kwarg or lam.args.defaults):
+                inner = dict(env)
+                keys = []
+                for c in cands:
+                    inner[lam.args.args[0].arg] = c
+                    keys.append(self.ev(lam.body, inner))
+                if all(type(k) in (int, float) for k in keys):
+                    best = 0
+                    for i, k in enumerate(keys):
+                        if (k > keys[best]) if cn == 'max' else (k < keys[best]):
+                            best = i
+                    return cands[best]
+            return _UNKV
         return _UNKV
 
     # -- statements
@@ -3499,6 +3540,7 @@ def d9_weighted_structure(ck):
 # ---- symbolic shapes of the weighted estimator ------------------------------------------------
 
 _SUNK = ('unk',)
+_SEMPTY = ('seq', None, 0)
 _DIM_NAMES = {'T': 'observations', 'F': 'features', 'S': 'states', 'K': 'state pairs'}
 
 
@@ -3524,6 +3566,8 @@ class _Shapes:
         self.problems = []
         self.loops = []
         self.returns = []
+        self.skips = []           # per open loop: its body can skip the rest of a trip / leave early (continue, break)
+        self.born = {}            # name -> loop depth at which it was bound to a fresh empty list
 
     def problem(self, node, msg):
         if not any(n is node and m == msg for n, m in self.problems):
@@ -3608,7 +3652,9 @@ class _Shapes:
     def ev_Tuple(self, e, env):
         return ('tup', [self.ev(x, env) for x in e.elts])
 
-    ev_List = ev_Tuple
+    def ev_List(self, e, env):
+        # `[]`: a list nothing was appended to yet (see `append` in ev_Call and the loop join in `run`)
+        return _SEMPTY if not e.elts else self.ev_Tuple(e, env)
 
     def ev_IfExp(self, e, env):
         self.ev(e.test, env)
@@ -3766,8 +3812,21 @@ class _Shapes:
             recv = self.ev(e.func.value, env)
             m = e.func.attr
             if m == 'append' and isinstance(e.func.value, ast.Name) and recv[0] == 'seq' and len(args) == 1:
-                env[e.func.value.id] = ('seq', args[0] if recv[1] in (None, args[0]) else _SUNK, self.loops[-1] if self.loops else None)
+                # the length is known for a list that was born empty at this loop depth (one element more) or
+                # just outside the innermost loop and receives its first append of the iteration (one per trip)
+                born, depth = self.born.get(e.func.value.id), len(self.loops)
+                if born == depth and type(recv[2]) is int:
+                    n = recv[2] + 1
+                elif born is not None and born + 1 == depth and recv == _SEMPTY and not self.skips[-1]:
+                    n = self.loops[-1]
+                else:
+                    n = None
+                env[e.func.value.id] = ('seq', args[0] if recv[1] in (None, args[0]) else _SUNK, n)
                 return _SUNK
+            if recv[0] == 'seq' and m == 'copy' and not args and not kw:
+                # the front end spells `np.array(<name>)` as `<name>.copy()`; a true list copy that is converted
+                # later has the same extents, and nothing but array operations is defined on the result here
+                return self.stack(recv, 'array')
             if recv[0] == 'arr':
                 if m in ('copy', 'astype', 'clip', 'cumsum', 'round'):
                     return recv
@@ -3871,13 +3930,19 @@ class _Shapes:
         return _SUNK
 
     # -- statements
-    def join(self, envs):
+    def join(self, envs, trips=None):
+        """`trips`: the join is that of a loop with this many trips, envs =
+        [before, after one pass of the body]."""
         envs = [x for x in envs if x is not None]
         if not envs:
             return None
         out = {}
         for k in set().union(*[set(x) for x in envs]):
             vs = [x.get(k, _SUNK) for x in envs]
+            if trips is not None and len(vs) == 2 and vs[0] == _SEMPTY and vs[1][0] == 'seq' and vs[1][2] == trips:
+                # an empty list that gets one element per trip: `trips` elements after the loop (none after zero trips)
+                out[k] = vs[1]
+                continue
             out[k] = vs[0] if all(v == vs[0] for v in vs) else _SUNK
         return out
 
@@ -3893,6 +3958,11 @@ class _Shapes:
                         self.ev(t, env)
                     else:
                         self.bind(t, v, env)
+                        for nm in ast.walk(t):
+                            if isinstance(nm, ast.Name):
+                                self.born.pop(nm.id, None)
+                        if isinstance(t, ast.Name) and v == _SEMPTY and len(s.targets) == 1:
+                            self.born[t.id] = len(self.loops)
             elif isinstance(s, ast.AnnAssign) and s.value is not None:
                 self.bind(s.target, self.ev(s.value, env), env)
             elif isinstance(s, ast.AugAssign):
@@ -3911,9 +3981,11 @@ class _Shapes:
                 it = self.ev(s.iter, env)
                 self.bind(s.target, self.element(it), env)
                 self.loops.append(self.length(it))
+                self.skips.append(any(isinstance(x, (ast.Continue, ast.Break, ast.Return, ast.Raise, ast.Try)) for b in s.body for x in ast.walk(b)))
                 after = self.run(s.body, dict(env))
                 self.loops.pop()
-                env = self.join([env, after]) if after is not None else env
+                self.skips.pop()
+                env = self.join([env, after], trips=self.length(it) if isinstance(self.length(it), str) else None) if after is not None else env
                 if s.orelse:
                     env = self.run(s.orelse, env)
             elif isinstance(s, (ast.With, ast.AsyncWith)):
